@@ -641,8 +641,13 @@ def run(ctx):
         else:
             ctx.variant["bn_affine_false"] = "rejected-by-validation"
         # 3. failing-input search: neighbouring-batch oracle on the real engine
-        for _ in range(ctx.n(45, 900)):
+        for it in range(ctx.n(45, 900) + ctx.n(10, 100)):
             cfg = gen_search_cfg(ctx.rng, ctx.thorough)
+            if it >= ctx.n(45, 900):
+                # every run: adaptive clipping over a logical batch split into several physical batches (the bound that the
+                # noise is calibrated to must be the bound every physical batch was clipped with)
+                cfg.update(clipping="adaptive", gsm_mode=ctx.rng.choice(["hooks", "functorch"]), max_phys=ctx.rng.choice([1, 2]), B=ctx.rng.randint(3, 5),
+                           Cq=ctx.rng.choice([0.3, 0.8]))
             try:
                 res = neighbour_oracle(cfg)
             except Exception as e:
